@@ -10,13 +10,14 @@
 //                               real report_proxy_agent_aggregate_status (hook H7) runs once on the file
 //                               /var/log/azure-proxy-agent/status.json (private tmpfs) and the reported
 //                               status.status is printed as a digit
-//   Q <polls>                -> same polls as P; prints, comma separated, the number of lines each poll's
-//                               report_proxy_agent_aggregate_status call appended to the extension's log (the
-//                               state events of a poll are written there by event_logger::write_event, next to
-//                               the poll's plain log lines; the check calibrates the plain lines away)
+//   Q <polls>                -> same polls as P; prints, comma separated, the number of telemetry events each
+//                               poll's report_proxy_agent_aggregate_status call emitted.  Events are observed where
+//                               they go: the real event_logger::start loop drains the queue into event files in a
+//                               private folder; after each poll a sentinel event is pushed and the files are read
+//                               until the sentinel shows up (no timing assumption, only a generous give-up time)
 //   W k:v k:v ...            -> the real write_state_event (hook H7 tap) with MAX_STATE_COUNT as the code has it
 //                               and a unique marker message per notification; one digit per notification: how
-//                               often the marker appeared in the extension's log (1 emitted, 0 silent)
+//                               many events with that message were emitted (1 emitted, 0 silent)
 use gpaext::common::StatusState;
 use gpaext::constants;
 use gpaext::service_main::service_state::ServiceState;
@@ -88,32 +89,88 @@ fn init_ext_logger() {
     LOGGER.call_once(|| gpaext::logger::init_logger(EXT_LOG_DIR.to_string(), EXT_LOG_NAME));
 }
 
-fn ext_log_len() -> u64 {
-    std::fs::metadata(std::path::Path::new(EXT_LOG_DIR).join(EXT_LOG_NAME)).map(|m| m.len()).unwrap_or(0)
+const EVENT_DIR: &str = "/var/log/c20-events";
+
+// Observation of emitted telemetry events through the real event logger loop.
+struct EventTap {
+    seen: std::collections::HashSet<std::ffi::OsString>,
+    n: u64,
 }
 
-// the bytes appended to the current log file since `from` (None when the file was rolled in between)
-fn ext_log_since(from: u64) -> Option<Vec<u8>> {
-    use std::io::{Read, Seek, SeekFrom};
-    let mut f = match std::fs::File::open(std::path::Path::new(EXT_LOG_DIR).join(EXT_LOG_NAME)) {
-        Ok(f) => f,
-        Err(_) => return if from == 0 { Some(vec![]) } else { None },
-    };
-    let len = f.metadata().map(|m| m.len()).unwrap_or(0);
-    if len < from {
-        return None;
+impl EventTap {
+    fn get() -> &'static std::sync::Mutex<EventTap> {
+        static TAP: std::sync::OnceLock<std::sync::Mutex<EventTap>> = std::sync::OnceLock::new();
+        TAP.get_or_init(|| {
+            let _ = std::fs::create_dir_all(EVENT_DIR);
+            std::thread::spawn(|| {
+                let rt = tokio::runtime::Builder::new_current_thread().enable_time().build().unwrap();
+                rt.block_on(proxy_agent_shared::telemetry::event_logger::start(
+                    std::path::PathBuf::from(EVENT_DIR),
+                    std::time::Duration::from_millis(2),
+                    10_000_000,
+                    |_s: String| async {},
+                ));
+            });
+            let mut t = EventTap { seen: Default::default(), n: 0 };
+            // whatever earlier legs left in the queue is flushed now
+            let _ = t.sync();
+            std::sync::Mutex::new(t)
+        })
     }
-    f.seek(SeekFrom::Start(from)).ok()?;
-    let mut v = Vec::new();
-    f.read_to_end(&mut v).ok()?;
-    Some(v)
-}
 
-fn count_sub(hay: &[u8], needle: &[u8]) -> usize {
-    if needle.is_empty() || hay.len() < needle.len() {
-        return 0;
+    // the messages of the events emitted since the previous sync, in order (None: gave up waiting)
+    fn sync(&mut self) -> Option<Vec<String>> {
+        self.n += 1;
+        let sentinel = format!("C20-SENTINEL-{}-{}", std::process::id(), self.n);
+        proxy_agent_shared::telemetry::event_logger::write_event(
+            proxy_agent_shared::logger::LoggerLevel::Info,
+            sentinel.clone(),
+            "c20",
+            "c20",
+            &gpaext::logger::get_logger_key(),
+        );
+        let mut msgs: Vec<String> = Vec::new();
+        let t0 = std::time::Instant::now();
+        loop {
+            let mut names: Vec<std::ffi::OsString> = match std::fs::read_dir(EVENT_DIR) {
+                Ok(rd) => rd.filter_map(|e| e.ok()).map(|e| e.file_name())
+                    // json_write_to_file writes <name>.tmp and renames it: only the final names count
+                    .filter(|n| n.to_string_lossy().ends_with(".json") && !self.seen.contains(n)).collect(),
+                Err(_) => vec![],
+            };
+            names.sort();
+            for n in names {
+                let text = match std::fs::read_to_string(std::path::Path::new(EVENT_DIR).join(&n)) {
+                    Ok(t) => t,
+                    Err(_) => break,
+                };
+                let v: serde_json::Value = match serde_json::from_str(&text) {
+                    Ok(v) => v,
+                    Err(_) => break, // still being written: look again
+                };
+                self.seen.insert(n.clone());
+                let _ = std::fs::remove_file(std::path::Path::new(EVENT_DIR).join(&n));
+                let mut done = false;
+                if let Some(a) = v.as_array() {
+                    for e in a {
+                        let m = e["Message"].as_str().unwrap_or("").to_string();
+                        if m == sentinel {
+                            done = true;
+                        } else {
+                            msgs.push(m);
+                        }
+                    }
+                }
+                if done {
+                    return Some(msgs);
+                }
+            }
+            if t0.elapsed() > std::time::Duration::from_secs(120) {
+                return None;
+            }
+            std::thread::sleep(std::time::Duration::from_millis(1));
+        }
     }
-    hay.windows(needle.len()).filter(|w| *w == needle).count()
 }
 
 fn run_state_events(line_no: usize, kvs: &[(&str, &str)]) -> String {
@@ -121,26 +178,23 @@ fn run_state_events(line_no: usize, kvs: &[(&str, &str)]) -> String {
         return "!no-private-mount".to_string();
     }
     init_ext_logger();
+    let mut tap = EventTap::get().lock().unwrap();
+    let _ = tap.sync();
     let mut svc = ServiceState::default();
     let mut o = String::new();
     for (i, (k, v)) in kvs.iter().enumerate() {
         let marker = format!("C20EV-{}-{}-#", line_no, i);
-        let before = ext_log_len();
         let r = std::panic::catch_unwind(std::panic::AssertUnwindSafe(|| {
             gpaext::service_main::verif_taps::write_state_event(k, v, marker.clone(), &mut svc);
         }));
+        let got = tap.sync();
         if r.is_err() {
             o.push('9');
             continue;
         }
-        match ext_log_since(before) {
-            Some(bytes) => {
-                // the marker is missing when the (never drained) event queue is full: write_event then logs a
-                // "failed to push" line instead of the message -- any appended line means "emitted"
-                let mut n = count_sub(&bytes, marker.as_bytes());
-                if n == 0 && bytes.contains(&b'\n') {
-                    n = 1;
-                }
+        match got {
+            Some(msgs) => {
+                let n = msgs.iter().filter(|m| **m == marker).count();
                 o.push(if n > 8 { '8' } else { (b'0' + n as u8) as char });
             }
             None => o.push('?'),
@@ -151,7 +205,7 @@ fn run_state_events(line_no: usize, kvs: &[(&str, &str)]) -> String {
 
 // Each step prints two digits: the status the monitor loop holds in memory, and the status in the status file
 // the extension writes (9 9 = the step panicked).
-fn run_polls(polls: &str, lines_out: &mut Vec<String>) -> String {
+fn run_polls(polls: &str, lines_out: &mut Vec<String>, count_events: bool) -> String {
     use gpaext::structs::{FormattedMessage, StatusObj};
     use std::os::unix::process::ExitStatusExt;
     let dir = std::path::Path::new(proxy_agent_shared::proxy_agent_aggregate_status::PROXY_AGENT_AGGREGATE_STATUS_FOLDER);
@@ -215,10 +269,19 @@ fn run_polls(polls: &str, lines_out: &mut Vec<String>) -> String {
             }
             // restored_in_error = true: the rollback step (runs the setup tool) is not part of this property
             let mut restored = true;
-            let before = ext_log_len();
+            if count_events {
+                let _ = EventTap::get().lock().unwrap().sync();
+            }
             gpaext::service_main::verif_taps::report_proxy_agent_aggregate_status(
                 &ext_version, &mut status, &mut st, &mut restored, &mut svc);
-            appended = ext_log_since(before).map(|b| b.iter().filter(|c| **c == b'\n').count());
+            if count_events {
+                appended = EventTap::get().lock().unwrap().sync().map(|m| {
+                    if std::env::var("C20_DEBUG").is_ok() {
+                        eprintln!("poll {} {}: {:?}", k, p, m.iter().map(|x| x.chars().take(60).collect::<String>()).collect::<Vec<_>>());
+                    }
+                    m.len()
+                });
+            }
             // the monitor loop then writes the status file
             gpaext::common::report_status(status_dir.clone(), "7", &status);
         }));
@@ -264,12 +327,12 @@ pub fn main() {
             }
             Some("P") => {
                 let polls = it.next().unwrap_or("");
-                writeln!(out, "{}", run_polls(polls, &mut Vec::new())).unwrap();
+                writeln!(out, "{}", run_polls(polls, &mut Vec::new(), false)).unwrap();
             }
             Some("Q") => {
                 let polls = it.next().unwrap_or("");
                 let mut lines = Vec::new();
-                let r = run_polls(polls, &mut lines);
+                let r = run_polls(polls, &mut lines, true);
                 if r.starts_with('!') {
                     writeln!(out, "{}", r).unwrap();
                 } else {
